@@ -41,15 +41,15 @@ type op struct {
 }
 
 type world struct {
-	s      *simrt.Sim
-	net    *simnet.Net
-	endp   *smtpendp.Endpoint
-	pt     *pass_table.Auth
-	tbl    *actors.StubTable
-	tgt    *actors.ScriptedTarget
-	mapK   int // 0 none, 1 identity, 2 static chain, 3 regexp
-	ref    map[string]string // reference accounts: normalized key -> password
-	nconn  int
+	s     *simrt.Sim
+	net   *simnet.Net
+	endp  *smtpendp.Endpoint
+	pt    *pass_table.Auth
+	tbl   *actors.StubTable
+	tgt   *actors.ScriptedTarget
+	mapK  int               // 0 none, 1 identity, 2 static chain, 3 regexp
+	ref   map[string]string // reference accounts: normalized key -> password
+	nconn int
 }
 
 var users = []string{"alice", "Alice", "ALICE", "ａｌｉｃｅ", "bob", "carol", "réne", "réne", "alice-alias", "dave"}
